@@ -487,6 +487,40 @@ fn perturb(spec: &ReaderSpec, rng: &mut Rng) {
     }
 }
 
+/// A lookup on an auto-refreshing handle did not find an object that exists. Classify the miss so that different
+/// causes get different signatures: ask the SAME handle again (a transient race heals), then a FRESH handle of the same
+/// store (if only that one sees the object, the first handle is persistently stale although it may refresh).
+fn classify_miss(h: &OdbHandle, o: &Obj, op: &str) -> (String, String) {
+    let where_was = if o.was_loose { "was-loose" } else { "packed" };
+    let again = FindHeader::try_header(h, &o.id);
+    match &again {
+        Err(e) if classify(e.as_ref()) == ErrClass::InsufficientSlots => return ("insufficient-slots".into(), String::new()),
+        _ => {}
+    }
+    let same_handle_finds = matches!(again, Ok(Some(_)));
+    let fresh = h.clone();
+    let fresh_result = FindHeader::try_header(&fresh, &o.id);
+    if let Err(e) = &fresh_result {
+        if classify(e.as_ref()) == ErrClass::InsufficientSlots {
+            return ("insufficient-slots".into(), String::new());
+        }
+    }
+    let fresh_finds = matches!(fresh_result, Ok(Some(_)));
+    let sig = if same_handle_finds {
+        format!("miss:{op}:{where_was}")
+    } else if fresh_finds {
+        format!("stale-handle-miss:{op}")
+    } else {
+        format!("store-miss:{op}:{where_was}")
+    };
+    let note = format!(
+        "asking the same handle again (try_header): {}; a fresh handle of the same store: {}",
+        if same_handle_finds { "found" } else { "still not found" },
+        if fresh_finds { "found" } else { "not found" }
+    );
+    (sig, note)
+}
+
 type OdbHandle = gix_odb::Handle;
 
 struct StoredLocation {
@@ -544,7 +578,6 @@ fn one_op(
         }
     };
     let mode = if auto_refresh { "auto-refresh" } else { "refresh-never" };
-    let where_was = |o: &Obj| if o.was_loose { "was-loose" } else { "packed" };
     match op {
         // ---- try_find
         0 => match &target {
@@ -576,10 +609,15 @@ fn one_op(
                         }
                         Ok(None) => {
                             if auto_refresh {
-                                out.violations.push((
-                                    format!("miss:try_find:{}", where_was(o)),
-                                    format!("try_find({}) [{mode}] = None, but the {} exists since before the lookup started", o.hex, kind_name(o.kind)),
-                                ));
+                                let (sig, note) = classify_miss(h, o, "try_find");
+                                if sig == "insufficient-slots" {
+                                    out.insufficient_slots += 1;
+                                } else {
+                                    out.violations.push((
+                                        sig,
+                                        format!("try_find({}) [{mode}] = None, but the {} exists since before the lookup started ({note})", o.hex, kind_name(o.kind)),
+                                    ));
+                                }
                             } else {
                                 out.legal_misses += 1;
                             }
@@ -642,10 +680,15 @@ fn one_op(
                         }
                         Ok(None) => {
                             if auto_refresh {
-                                out.violations.push((
-                                    format!("miss:try_header:{}", where_was(o)),
-                                    format!("try_header({}) [{mode}] = None, but the object exists since before the lookup started", o.hex),
-                                ));
+                                let (sig, note) = classify_miss(h, o, "try_header");
+                                if sig == "insufficient-slots" {
+                                    out.insufficient_slots += 1;
+                                } else {
+                                    out.violations.push((
+                                        sig,
+                                        format!("try_header({}) [{mode}] = None, but the object exists since before the lookup started ({note})", o.hex),
+                                    ));
+                                }
                             } else {
                                 out.legal_misses += 1;
                             }
@@ -683,21 +726,15 @@ fn one_op(
                 if h.exists(&o.id) {
                     out.found += 1;
                 } else if auto_refresh {
-                    // `contains` cannot report errors: ask the fallible header lookup whether the store ran out of slots
-                    match FindHeader::try_header(h, &o.id) {
-                        Err(e) if classify(e.as_ref()) == ErrClass::InsufficientSlots => out.insufficient_slots += 1,
-                        probe => out.violations.push((
-                            format!("miss:contains:{}", where_was(o)),
-                            format!(
-                                "contains({}) [{mode}] = false, but the object exists since before the lookup started (try_header right afterwards: {})",
-                                o.hex,
-                                match probe {
-                                    Ok(Some(_)) => "found".to_string(),
-                                    Ok(None) => "not found".to_string(),
-                                    Err(e) => err_chain(e.as_ref()),
-                                }
-                            ),
-                        )),
+                    // `contains` cannot report errors: the classification asks the fallible header lookup
+                    let (sig, note) = classify_miss(h, o, "contains");
+                    if sig == "insufficient-slots" {
+                        out.insufficient_slots += 1;
+                    } else {
+                        out.violations.push((
+                            sig,
+                            format!("contains({}) [{mode}] = false, but the object exists since before the lookup started ({note})", o.hex),
+                        ));
                     }
                 } else {
                     out.legal_misses += 1;
@@ -718,6 +755,19 @@ fn one_op(
             let hex_len = if rng.below(4) == 0 { 4 + rng.below(4) } else { 12 + rng.below(29) };
             let Ok(prefix) = gix_hash::Prefix::new(&id, hex_len) else { return };
             match h.lookup_prefix(prefix, None) {
+                Ok(None) if known && auto_refresh => {
+                    if let Target::Known(o, _) = &target {
+                        let (sig, note) = classify_miss(h, o, "lookup_prefix");
+                        if sig == "insufficient-slots" {
+                            out.insufficient_slots += 1;
+                        } else {
+                            out.violations.push((
+                                sig,
+                                format!("lookup_prefix({}) [{mode}] = None, but {} exists since before the lookup started ({note})", id.to_hex_with_len(hex_len), o.hex),
+                            ));
+                        }
+                    }
+                }
                 Ok(res) => {
                     if out.prefix_results.len() < 20_000 {
                         out.prefix_results.push((id.to_hex_with_len(hex_len).to_string(), id, res, known && auto_refresh));
@@ -1289,6 +1339,40 @@ fn gen_sequential(t: &mut Tape) -> (WorldSpec, Vec<Act>) {
     // each handle has a habit: 0 mixed, 1 index-only (contains), 2 finder, 3 refresher (absent ids), 4 locator
     let habits: Vec<u8> = (0..nhandles).map(|_| t.weighted(&[2, 3, 3, 3, 2]) as u8).collect();
     let mut script = Vec::new();
+    if t.chance(64) {
+        // template "stale handle": H0 warms up, then other handles make the store reconcile with the disk
+        // 1..6 times while H0 sleeps, then H0 looks for old and new objects
+        script.push(Act::Ops {
+            handle: 0,
+            kind: if t.bool() { 2 } else { 1 },
+            count: 80,
+            seed: t.u16(),
+        });
+        let reconciliations = t.range(1, 6);
+        for _ in 0..reconciliations {
+            let step = if t.chance(160) {
+                Step::NewCommits {
+                    count: t.range(1, 3) as u8,
+                    as_pack: !t.chance(64),
+                }
+            } else {
+                gen_step(t)
+            };
+            script.push(Act::Git(step));
+            script.push(Act::Ops {
+                handle: 1,
+                kind: 3,
+                count: 1,
+                seed: t.u16(),
+            });
+        }
+        script.push(Act::Ops {
+            handle: 0,
+            kind: 2,
+            count: 80,
+            seed: t.u16(),
+        });
+    }
     // prologue: some handles learn about all indices without loading any pack
     for h in 0..nhandles {
         if t.chance(112) {
